@@ -28,6 +28,13 @@ class Opaque:
     def _pv_setattr(self, ex, name, v):
         self._attrs[name] = v
 
+    def _pv_binop(self, ex, op, other):
+        """a binary operator is part of the stub's contract only if declared (Opaque(..., __matmul__=Native(...)))"""
+        f = self._attrs.get(op)
+        if f is None:
+            return NotImplemented
+        return ex.call(f, [other], {})
+
     def _pv_type(self, ex):
         """type(stub): calling it builds another object of the stub's kind from the given arguments (e.g. type(bit_generator)(seed))"""
         from .pyvc import TypeTag
